@@ -510,6 +510,11 @@ func describe(tx *txnLog) string {
 // Plans returns the exploration plans of scenario family T.
 func Plans() []nrun.Plan { return plans }
 
+// AllPlans is what the C11 check runs: the generated family first (its
+// default-schedule enumeration must not be starved by the time-capped k=2
+// levels of the hand-written scenarios), then the hand-written scenarios.
+func AllPlans() []nrun.Plan { return append(GenPlans(), plans...) }
+
 var plans = []nrun.Plan{
 	{Scenario: scenario(variant{name: "T-tv2", retries: 1, alwaysAbort: true}), QuickBudget: 2, QuickFaultOnlyFrom: 2, ThoroughBudget: 2, Weight: 1},
 	{Scenario: scenario(variant{name: "T-tv1", tv1: true, retries: 1, alwaysAbort: true}), QuickBudget: 2, QuickFaultOnlyFrom: 2, ThoroughBudget: 2, Weight: 1},
